@@ -11,7 +11,7 @@ from depsim import env, gen, refparser, session
 from depsim.props.base import ParserSessionProp
 from depsim.runner import Violation, add_set, bump, digest, new_stats
 
-EN_WORDS = ['a_b', '_', 'x[1]', '42', '3.14', 'dog', 'Mr.', "it's", '(', '[', ']', '{', 'a(b', '<x>', 'x>y', '&amp;', 'ü', '日本', '%', '1,000', '"', "'",
+EN_WORDS = ['a)b', ':)-', '1)a', 'a_b', '_', 'x[1]', '42', '3.14', 'dog', 'Mr.', "it's", '(', '[', ']', '{', 'a(b', '<x>', 'x>y', '&amp;', 'ü', '日本', '%', '1,000', '"', "'",
             ')', 'a)', '))', '(a)', '-', '--', 'U.S.', ';', 'e=mc2']
 JA_WORDS = ['犬', 'が', 'は', '走る', '(', ')', '[', ']', 'abc', '１２', 'を', '、', '。', 'x>y', '&', 'た', 'ー']
 
@@ -79,8 +79,10 @@ def _word_class(tree):
     ws = [l.children[0]['word'] for l in tree.leaves]
     if any(w.endswith(')') for w in ws):
         return 'word_ends_with_close_paren'
+    if any(w.startswith('(') for w in ws):
+        return 'word_starts_with_open_paren'
     if any(('(' in w or ')' in w) for w in ws):
-        return 'word_with_paren'
+        return 'word_inner_paren'          # e.g. a(b, a)b : these DO round-trip on the pinned tree
     return 'plain'
 
 
